@@ -151,7 +151,14 @@ def run_mt(i):
             if msg:
                 res["viol"].append(("stream-differs", "thread %d: %s" % (tid, msg), {})); continue
             res["events"] += len(evs)
-            meta = json.load(open(os.path.join(sd, "stream.json")))
+            try:
+                with open(os.path.join(sd, "stream.json"), "rb") as mf:
+                    meta = json.loads(mf.read().decode("utf-8"))
+                if not isinstance(meta, dict):
+                    raise ValueError("top level is not an object")
+            except (OSError, ValueError) as ex:
+                res["viol"].append(("metadata-unreadable", "thread %d: stream.json cannot be read back: %s" % (tid, ex), {}))
+                continue
             o = meta.get("ovni", {})
             exp = case["expect"][tid]
             got_cpus = [(c["index"], c["phyid"]) for c in o.get("loom_cpus", [])]
